@@ -22,7 +22,7 @@ Proof.
   2:{ destruct ph as [|c].
       - exists (DialFail k). eexists. split; [reflexivity|]. cbn [pstep]. rewrite Etk. simpl. rewrite Nat.eqb_refl. reflexivity.
       - exists (ConnectAdd k). cbn [pstep]. rewrite Etk. simpl. rewrite Nat.eqb_refl.
-        destruct (p_closed s); eexists; split; reflexivity. }
+        destruct (p_closed s); [|destruct (negb (memb c (p_open s)))]; eexists; split; reflexivity. }
   destruct (p_closing s) as [|c cl] eqn:Ecl.
   2:{ exists PCloseConn. eexists. split; [reflexivity|]. cbn [pstep]. rewrite Ecl. reflexivity. }
   destruct (p_dead s) as [|c dd] eqn:Edd.
@@ -136,8 +136,9 @@ Proof.
     rewrite (zsum_aremove wk k _ _ E). pose proof (zsum_wt_notify W t false (p_threads s)). unfold wk; cbn [snd]. lia.
   - (* ConnectAdd *)
     destruct (alookup k (p_tasks s)) as [[t [|c]]|] eqn:E; try discriminate.
-    destruct (p_closed s); inv_some H; cbn [p_threads p_tasks p_closing p_dead];
-      rewrite (zsum_aremove wk k _ _ E); pose proof (zsum_wt_notify W t true (p_threads s)); unfold wk; cbn [snd]; lia.
+    pose proof (zsum_wt_notify W t true (p_threads s)). pose proof (zsum_wt_notify W t false (p_threads s)).
+    destruct (p_closed s); [|destruct (negb (memb c (p_open s)))]; inv_some H; cbn [p_threads p_tasks p_closing p_dead];
+      rewrite (zsum_aremove wk k _ _ E); unfold wk; cbn [snd]; lia.
   - (* HErr *)
     destruct (memb c (p_dead s)) eqn:Ed; [|discriminate]. apply memb_In in Ed.
     pose proof (length_remn_lt c _ Ed) as Hl.
